@@ -9,6 +9,7 @@
 #include <cinttypes>
 #include <string>
 #include <vector>
+#include <cfenv>
 #include <sstream>
 #include <iostream>
 #include "tfhe.h"
@@ -382,7 +383,9 @@ int main(int argc, char **argv) {
         std::string op; if (!(is >> op)) { putchar('\n'); fflush(stdout); continue; }
         V a; ll x; while (is >> x) a.push_back(x);
         V r;
-        if (op == "msf") r.push_back(modSwitchFromTorus32((int32_t) a[0], (int32_t) a[1]));
+        if (op == "fenv") {   // rounding direction of the floating-point environment for everything that follows: 0 nearest, 1 upward, 2 downward, 3 toward zero
+            static const int modes[4] = { FE_TONEAREST, FE_UPWARD, FE_DOWNWARD, FE_TOWARDZERO }; fesetround(modes[a.empty() ? 0 : (a[0] & 3)]); r.push_back(fegetround() == modes[a.empty() ? 0 : (a[0] & 3)]); }
+        else if (op == "msf") r.push_back(modSwitchFromTorus32((int32_t) a[0], (int32_t) a[1]));
         else if (op == "aph") r.push_back(approxPhase((int32_t) a[0], (int32_t) a[1]));
         else if (op == "mst") r.push_back(modSwitchToTorus32((int32_t) a[0], (int32_t) a[1]));
         else if (op == "dtot") r.push_back(dtot32(ldexp((double) a[0], -(int) a[1])));
